@@ -21,7 +21,7 @@ func init() {
 		Explanation: "DECIDED (structural, all multisets and orders): accumulator-class (every store/map update in Metrics.Add and LatencyMetrics.Add is a sum, a min/max guarded by a strict comparison with the incoming value in the direction the field name documents, a set insert guarded by a membership test, or a delegate; with the documented source field and condition); no in-domain sentinel (the 'first sample' disjunct of a min/max guard must not compare the accumulator itself with a constant; time.Time.IsZero on Earliest accepted: year 1 is outside the timestamp domain); close-pure (fields written by Close, transitively, are disjoint from fields read by Add except lazily initialised containers, and each is assigned in Close before Close reads it, so repeated/intermediate Close cannot change final values); close-division guards; success-range agreement between hit's error mapping and Metrics.Add's success count, decided by evaluating both comparison chains for all 65536 codes; the report command always closes before rendering and renders on every non-error exit. " +
 			"NOT DECIDED: numerical equality of rate/throughput/means with a reference computation (floating point).",
 		Assumptions: []string{"timestamps are after year 1", "latencies are non-negative (zero value of Max is a lower bound)"},
-		MinObs:      20,
+		MinObs:      18,
 		Run:         runC10,
 	})
 	register(&propSpec{
@@ -30,7 +30,7 @@ func init() {
 		Explanation: "DECIDED (necessary conditions only): sample-reaches-estimator (every path of LatencyMetrics.Add passes exactly one estimator.Add(float64(latency)) with the parameter itself, and Min/Max are updated from that same value); percentile-table (Close assigns P50,P90,P95,P99 from Quantile(0.50,0.90,0.95,0.99) and the JSON tags are \"50th\"…\"99th\": number in field name = constant×100 = number in tag); ladder (the `logarithmic` literal is strictly increasing from 0 to 1 and the HDR reporter walks it in order calling Quantile(q) of the same metrics); estimator-class (the estimator is the t-digest created with compression ≥ 100; Quantile reads it unchanged). " +
 			"NOT DECIDED: min ≤ p50 ≤ … ≤ max and the 1% rank-error bound are numerical properties of github.com/influxdata/tdigest on concrete data.",
 		Assumptions: []string{"t-digest with compression 100 has ≈1% rank accuracy (its documented class)"},
-		MinObs:      9,
+		MinObs:      8,
 		Run:         runC11,
 	})
 	register(&propSpec{
@@ -39,7 +39,7 @@ func init() {
 		Explanation: "DECIDED (structural, all bucket lists and latencies): exactly-one (every path through Histogram.Add increments exactly one element of Counts and Total exactly once, outside any loop); boundary-polarity (the scan stops at i iff Latency ≥ Buckets[i] && Latency < Buckets[i+1], bounded by len(Buckets)-1 so the last bucket is the overflow, and the element counted is Counts[i] of that same i); counts-len (every function in lib that indexes or ranges over Histogram.Counts first establishes len(Counts)==len(Buckets) by the resize idiom or works on a normalised copy — Add believes the lengths may differ, so its siblings may not assume otherwise; covers rendering before the first Add); Nth bounds; UnmarshalText (each parsed duration appended exactly once in input order; the only other append is constant 0 under first-element ∧ value > 0; empty result rejected; index guards); report plumbing (-buckets and hist[...] text reach UnmarshalText of the histogram that receives Add and is rendered). " +
 			"NOT DECIDED: time.ParseDuration's grammar; that the supplied bounds are increasing (a precondition of the property).",
 		Assumptions: []string{"bucket bounds are increasing (precondition)"},
-		MinObs:      8,
+		MinObs:      6,
 		Run:         runC12,
 	})
 }
